@@ -12,7 +12,7 @@ trap cleanup EXIT
 cd "$wt" || exit 2
 if ! git apply --3way "$patch" 2>/tmp/apply.err && ! git apply "$patch" 2>>/tmp/apply.err; then echo "patch does not apply"; cat /tmp/apply.err; exit 2; fi
 for id in "$@"; do
-  out=$(cd /verif && VERIF_REPO="$wt" VERIF_EVIDENCE_DIR=/tmp/seed_evidence ./check "$id" --tier quick 2>&1)
+  out=$(cd /verif && VERIF_REPO="$wt" VERIF_EVIDENCE_DIR=/tmp/seed_evidence VERIF_REPLAY_DIR=/tmp/seed_replays ./check "$id" --tier quick 2>&1)
   rc=$?
   nv=$(echo "$out" | grep -c '^VIOLATION')
   echo "== $id exit=$rc violations=$nv"
